@@ -74,6 +74,17 @@ theorem columns_roundtrip (parse : Str → Option NumbFields) (v : V) (h : wfVal
     · have := deserialize_ser parse (.tbl es) (by simpa [numbsParse] using h.2)
       simp [fromColumns, emptyRow, hc, this]
 
+theorem takeWhile_idem {α : Type} (p : α → Bool) (l : List α) : (l.takeWhile p).takeWhile p = l.takeWhile p := by
+  induction l with
+  | nil => rfl
+  | cons a l ih =>
+    by_cases h : p a = true
+    · simp [h, ih]
+    · simp [h]
+
+/-- a C string seen through its first NUL is already NUL-free -/
+theorem cstr_idem (t : Str) : Numb.cstr (Numb.cstr t) = Numb.cstr t := takeWhile_idem _ t
+
 /-- F21 as a CHECK failure: a number whose digit string is empty (what `to_digits` produced before 46300e2 for a value
     that rounds to zero) is refused by the schema -/
 theorem empty_digits_rejected (q : Bool) (t : Str) (neg : Bool) (su : Option (List Nat)) (sc : Int) :
